@@ -268,6 +268,14 @@ func (e *Engine) loopEntry(st *State, fr *Frame, li *loopInfo, pred *ssa.BasicBl
 	}
 	// evaluate phis for the entry edge, assert the invariant
 	e.evalPhis(st, fr, li.header, pred)
+	if ls.Unreach {
+		// the back edge is proved unreachable (obligation backedge-unreachable): the header runs once, from the
+		// entry edge, with the entry state: no cut, no havoc
+		fr.inLoop[li.header] = true
+		st.path = append(st.path, fmt.Sprintf("L%d.", li.ord))
+		e.runInstrs(st, fr, li.header, nil, countPhis(li.header))
+		return
+	}
 	for _, c := range ls.Hints {
 		st.Assume(e.evalBool(c.E, e.invEnv(st, fr)))
 	}
@@ -742,6 +750,8 @@ func (e *Engine) scanContractWrites(callee *ssa.Function, c *Contract, cc *ssa.C
 			w.anyCall = true
 		case a == "heap":
 			w.all = true
+		case strings.HasPrefix(a, "objects("):
+			w.all = true // (coarse: a loop that calls such a function havocs the object heaps)
 		case strings.HasPrefix(a, "fields("):
 			name := strings.TrimSuffix(strings.TrimPrefix(a, "fields("), ")")
 			for pi, p := range body.Params {
@@ -1494,6 +1504,8 @@ func (e *Engine) addrUsesLocal(v ssa.Value, seen map[ssa.Value]bool) bool {
 				return false
 			}
 		case *ssa.DebugRef:
+		case *ssa.Convert, *ssa.ChangeType:
+			return false // the address is converted (e.g. to unsafe.Pointer): it may be stored anywhere
 		case *ssa.MakeClosure:
 			// captured by reference: fine as long as the closure is used locally
 		case ssa.CallInstruction:
@@ -1519,8 +1531,10 @@ func (e *Engine) addrUsesLocal(v ssa.Value, seen map[ssa.Value]bool) bool {
 					}
 				}
 				c := e.contractFor(callee)
-				if (c == nil || c.Inline) && len(body.Blocks) > 0 && len(seen) < 64 {
-					// inlined callee: the address must not escape through the corresponding parameter
+				_ = c
+				if len(body.Blocks) > 0 && len(seen) < 64 {
+					// the address must not escape through the corresponding parameter of the callee (whether the call
+					// is inlined or replaced by the callee's contract: a contract cannot speak about a caller's cell)
 					esc := false
 					for i, a := range cc.Args {
 						if a == v && i < len(body.Params) {
